@@ -323,7 +323,16 @@ Definition step_row (bad : list string) (s : istate) (row : list string) : ires 
         | IOk (d1, id) => IOk ({| i_doc := d1; i_row := i_row s0; i_stage := stage; i_next := []; i_prev := prev; i_prehdr := id |}, false)
         | IErr e => IErr e | IOut => IOut
         end
-      else step_cells bad row s0 0 row false in
+      else match step_cells bad row s0 0 row false with
+           | IOk (s1, b) =>
+             (* every spine path has ended: a later cell has no parent to attach to *)
+             let prev' := match i_next s1, i_prev s1 with
+                          | [], Some (_ :: _) => Some []
+                          | _, p => p end in
+             IOk ({| i_doc := i_doc s1; i_row := i_row s1; i_stage := i_stage s1; i_next := i_next s1; i_prev := prev';
+                     i_prehdr := i_prehdr s1 |}, b)
+           | other => other
+           end in
     match r with
     | IErr e => IErr e | IOut => IOut
     | IOk (s1, bar) =>
